@@ -517,6 +517,26 @@ def _close(case, ids, port, rev, item, seq, seqs, problems, partial=False):
         problems.append('page %d scraped in two different orders' % page)
 
 
+def observed_orders(case, port, result):
+    """the scraper's link order as observed in the trace, keyed like the site: {page key: [(target key, inline)]}
+    (the order in which a page's links come out of the scraper is set-iteration order, an input of the crawl)"""
+    ids = Ids(case)
+    keys = set(case['meta']['pages'].keys()) | set(case['starts'])
+    for pg in case['meta']['pages'].values():
+        keys.update((l[0], l[1]) for l in pg['links'])
+        if pg['target']:
+            keys.add(tuple(pg['target']))
+    rev = {ids.get(canon(*k)): k for k in keys}
+    seqs, _ = link_orders(case, ids, port, result)
+    out = {}
+    for pid, seq in seqs.items():
+        if pid in rev and all(t in rev for t, _ in seq):
+            declared = {(l[0], l[1]) for l in case['meta']['pages'].get(rev[pid], {}).get('links', [])}
+            if {rev[t] for t, _ in seq} == declared:       # complete observation of that page
+                out[rev[pid]] = [(rev[t], i) for t, i in seq]
+    return out
+
+
 def coq_case(case, result):
     """-> (list of alternative Coq terms [sim_case ...] (any of them = 0 means the trace replays), problems)"""
     port = None
